@@ -300,3 +300,57 @@ Proof.
       * rewrite Ef. unfold D'. rewrite <- !app_assoc. reflexivity.
       * rewrite El. exact Hlen2.
 Qed.
+
+Lemma zero_prefix_facts (n : nat) (l : bytes) :
+  n <= length l ->
+  exists z, z <= n /\ l = repeat 0%N z ++ skipn z l /\
+            pieces (firstn n l) = pieces (firstn (n - z) (skipn z l)) /\
+            (z < n -> exists x r, skipn z l = x :: r /\ x <> 0%N).
+Proof.
+  intros Hn. destruct (zero_split (firstn n l)) as (z & t & Ez & Ht).
+  assert (Hz : z <= n) by (apply (f_equal (@length N)) in Ez; rewrite firstn_length, app_length, repeat_length in Ez; lia).
+  assert (El : l = repeat 0%N z ++ skipn z l).
+  { rewrite <- (firstn_skipn z l) at 1. f_equal.
+    apply (f_equal (firstn z)) in Ez. rewrite firstn_firstn, Nat.min_l in Ez by lia.
+    rewrite Ez, firstn_app, repeat_length, Nat.sub_diag. cbn [firstn]. rewrite app_nil_r.
+    rewrite firstn_all2 by (rewrite repeat_length; lia). reflexivity. }
+  assert (Et : firstn (n - z) (skipn z l) = t).
+  { apply (f_equal (skipn z)) in Ez. rewrite skipn_firstn_comm in Ez. rewrite Ez.
+    rewrite skipn_app, repeat_length, Nat.sub_diag, skipn_all2 by (rewrite repeat_length; lia). reflexivity. }
+  exists z. repeat split; try assumption.
+  - rewrite Ez, pieces_zeros, Et. reflexivity.
+  - intros Hlt. destruct Ht as [->|(y & r & -> & Hy)].
+    + exfalso. apply (f_equal (@length N)) in Et. rewrite firstn_length, skipn_length in Et. cbn [length] in Et. lia.
+    + destruct (skipn z l) as [|y' r']; [destruct (n - z); discriminate|].
+      destruct (n - z) eqn:En; [lia|]. cbn in Et. injection Et as -> _. eauto.
+Qed.
+
+Theorem compact_buffer_spec (a : bytes) (oldlen : nat) :
+  walkable oldlen a -> length a <= oldlen + 1 ->
+  let c := cat (pieces (firstn oldlen a)) in
+  compact_buffer a oldlen = Ok (length c, c).
+Proof.
+  intros Hw Hcap c.
+  assert (Hol : oldlen <= length a) by (destruct Hw as [?|[?|[? _]]]; lia).
+  destruct (zero_prefix_facts oldlen a Hol) as (z & Hz & Ea & Ep & Hnz).
+  pose proof (walkable_skip oldlen z a Hw Hz) as Hw2.
+  subst c. rewrite Ep.
+  remember (skipn z a) as r eqn:Er. clear Er.
+  set (c := cat (pieces (firstn (oldlen - z) r))).
+  unfold compact_buffer.
+  assert (Hs : skip_zeros (S (length a)) a 0 oldlen = Ok z).
+  { assert (Hlen : z < S (length a)) by lia. revert Hlen. generalize (S (length a)) as fuel. intros fuel Hlen.
+    rewrite Ea. change (repeat 0%N z ++ r) with ([] ++ repeat 0%N z ++ r).
+    change 0 with (length (@nil N)). rewrite skip_zeros_spec; [reflexivity| | |]; cbn [length]; try lia.
+    destruct (Nat.eq_dec z oldlen); [left; lia|right; apply Hnz; lia]. }
+  rewrite Hs. cbn [bind].
+  pose proof (compact_loop_inv (S oldlen) [] (repeat 0%N z) r oldlen) as H. cbv zeta in H.
+  cbn [length app] in H. rewrite repeat_length in H. cbn [Nat.add] in H.
+  rewrite <- Ea in H. fold c in H.
+  destruct H as (a' & E & Ef & El); [assumption|assumption|lia|].
+  rewrite E. cbn [bind app] in *.
+  destruct (Nat.eqb (length c) 0) eqn:E0.
+  - apply Nat.eqb_eq in E0. destruct c; [reflexivity|discriminate].
+  - destruct (Nat.eqb (length c) (oldlen + 1)) eqn:E1; [|rewrite Ef; reflexivity].
+    apply Nat.eqb_eq in E1. rewrite <- Ef at 3. rewrite firstn_all2 by lia. reflexivity.
+Qed.
